@@ -43,7 +43,10 @@ def write_evidence(prop, tier, master, check, agg, violations, known, harness_er
         "faults_fired": faults,
         "probes": probes,
         "ops_by_kind": ops,
-        "foreign_observations": foreign,
+        "other_properties_clauses_hit_runs": foreign,
+        "other_properties_clauses_note": "runs of this batch in which a clause owned by another property fired at "
+                                         "least once; such clauses are judged only by the owning property's check, "
+                                         "whose generation profile keeps that property's preconditions",
         "other_counters": {k: v for k, v in sorted(stats.items()) if ":" not in k},
         "determinism_selftest": agg.get("determinism"),
         "truncated": bool(agg.get("truncated")),
